@@ -143,9 +143,9 @@ def make_body(ctx, node, is_td_hint=None):
       if node.get('mon') and not node['plugs']:
         # the monitor has stored at least one sample before the body goes on (an UNSET monitor
         # measurement would fail the phase, which is not what is examined here)
-        c0, deadline = ctx.mon_calls.get(name, 0), time.time() + 5
+        c0, deadline = ctx.mon_calls.get(name, 0), time.time() + 3
         while ctx.mon_calls.get(name, 0) < c0 + 2 and time.time() < deadline:
-          time.sleep(0.001)
+          time.sleep(0.125)
       return _body_rest(test, b, m, hook)
     finally:
       ctx.events.append(('body_end', name, ctx.att[name]))
@@ -328,7 +328,7 @@ def build_phase(ctx, node, plugcls, timeout_s=None):
     def mon(test, _n=node['name']):
       ctx.mon_calls[_n] = ctx.mon_calls.get(_n, 0) + 1
       return ctx.mon_calls[_n]
-    fn = monitors.monitors('mon', mon, poll_interval_ms=1)(fn)
+    fn = monitors.monitors('mon', mon, poll_interval_ms=500)(fn)     # (virtual time: such programs run under the scheduler)
   ph = htf.PhaseOptions(**kw)(fn)
   mk = node.get('mk', 'none')
   if mk == 'scalar':
